@@ -241,6 +241,16 @@ func count(t *rapid.T, max int, label string) int {
 	return rapid.IntRange(0, max).Draw(t, label)
 }
 
+// countMany is count, except that where long components are asked for (LongPct) one
+// multi-part geometry in five hundred has 255..258 or 300 parts: the counts around which
+// an 8-bit counter, a fixed table or a block of parts runs out.
+func countMany(t *rapid.T, o *TreeOpts, max int, label string) int {
+	if o.LongPct > 0 && rapid.IntRange(0, 499).Draw(t, label+"many") == 257 {
+		return rapid.SampledFrom([]int{255, 256, 257, 258, 300}).Draw(t, label+"manyn")
+	}
+	return count(t, max, label)
+}
+
 // longSize draws the length of a long line or ring: 65..lm coordinates, or (one
 // time in four) a length that puts the number of coordinates or of ordinates at,
 // just below or just above a power of two between 256 and 2048 - chunk sizes,
@@ -310,6 +320,9 @@ func Poly(t *rapid.T, o *TreeOpts, stride int) [][][]model.F {
 		return [][][]model.F{}
 	}
 	n := rapid.IntRange(1, o.MaxParts).Draw(t, "nrings")
+	if o.LongPct > 0 && rapid.IntRange(0, 499).Draw(t, "nringsmany") == 257 {
+		n = rapid.SampledFrom([]int{255, 256, 257, 258, 300}).Draw(t, "nringsmanyn")
+	}
 	out := make([][][]model.F, n)
 	for i := range out {
 		out[i] = Ring(t, o, stride)
@@ -345,7 +358,7 @@ func Leaf(t *rapid.T, o *TreeOpts, kind string, l geom.Layout) *model.G {
 	case model.LinearRing:
 		g.C1 = Ring(t, o, stride)
 	case model.MultiPoint:
-		n := count(t, o.MaxParts+2, "nmp")
+		n := countMany(t, o, o.MaxParts+2, "nmp")
 		g.C1 = make([][]model.F, n)
 		for i := range g.C1 {
 			if !o.NoEmptyPoint && pct(t, o.PEmpty, "emptymember") {
@@ -357,13 +370,13 @@ func Leaf(t *rapid.T, o *TreeOpts, kind string, l geom.Layout) *model.G {
 	case model.Polygon:
 		g.C2 = Poly(t, o, stride)
 	case model.MultiLineString:
-		n := count(t, o.MaxParts, "nmls")
+		n := countMany(t, o, o.MaxParts, "nmls")
 		g.C2 = make([][][]model.F, n)
 		for i := range g.C2 {
 			g.C2[i] = Line(t, o, stride)
 		}
 	case model.MultiPolygon:
-		n := count(t, o.MaxParts, "nmpoly")
+		n := countMany(t, o, o.MaxParts, "nmpoly")
 		g.C3 = make([][][][]model.F, n)
 		for i := range g.C3 {
 			g.C3[i] = Poly(t, o, stride)
@@ -395,7 +408,7 @@ func tree(t *rapid.T, o *TreeOpts, l geom.Layout, depth int, kinds []string) *mo
 		return Leaf(t, o, kind, l)
 	}
 	g := &model.G{Kind: kind}
-	n := count(t, o.MaxParts, "nmembers")
+	n := countMany(t, o, o.MaxParts, "nmembers")
 	for i := 0; i < n; i++ {
 		ml := l
 		if o.MixLayouts {
